@@ -1,5 +1,5 @@
 \* replayed exhaustively: MIXED GRANULARITY, <= 2 records of 4 units at 0, 1, 3, 6 in units of 1, 2, 4 bytes x the 7 windows of
-\* R_Mixed x ALL / ODD / WORD1 x -S none / L2
+\* R_Mixed x ALL / ODD / WORD1
 CONSTANTS
   Dev = {}
   MaxRecs = 2
@@ -16,6 +16,6 @@ CONSTANTS
   LaneSet <- L_Mixed
   FiltSet <- F_None
   ESet <- E_None
-  HdrSet <- H_Mixed
+  HdrSet <- H_None
 SPECIFICATION CoverSpec
 CHECK_DEADLOCK FALSE
